@@ -340,6 +340,9 @@ func fileReadAux(L *LState, file *lFile, idx int) int {
 		switch lv := L.Get(i).(type) {
 		case LNumber:
 			size := int64(lv)
+			if size < 0 {
+				L.ArgError(i, "invalid count")
+			}
 			if size == 0 {
 				_, err = file.reader.ReadByte()
 				if err == io.EOF {
@@ -656,6 +659,7 @@ func ioOpenFile(L *LState) int {
 		readable = false
 	case "a", "ab":
 		mode = os.O_WRONLY | os.O_APPEND | os.O_CREATE
+		readable = false
 	case "r+", "rb+":
 		mode = os.O_RDWR
 	case "w+", "wb+":
